@@ -241,7 +241,7 @@ theorem cmpV_sc {op : Cmp} (hp : Plain s) (ha : a.isSc = true) (hb : b.isSc = tr
       obtain ⟨sm1, vz, -⟩ := ensurebool_sc (o := .int _) rfl h1
       obtain ⟨sm2, vr⟩ := cmpLL_val (sm1.guard_none hp.guard) (sm1.ign_false hp.ign) h2
       exact ⟨sm1.trans sm2, r, rfl, by rw [vr, cmpSem_mirror, vz]; rfl⟩
-  · exact cmpLV_sc hp hb h
+  · cases b <;> simp only [Val.isSc, Bool.false_eq_true] at hb <;> simp only at h <;> exact cmpLV_sc hp rfl h
   · obtain ⟨y, s1, h1, h⟩ := bind_ok.mp h
     obtain ⟨r, s2, h2, h⟩ := bind_ok.mp h
     obtain ⟨rfl, rfl⟩ := pure_ok' h
